@@ -526,7 +526,62 @@ pub fn corner_values(t: &RT) -> Vec<Rc<RV>> {
         k += 1;
         k == 1
     }));
+    // structured corners: the components of the top-level product tree (three levels deep), one of
+    // them all ones and the others all zeros, and the other way round. (For the hash-context and
+    // buffer types of the jets, uniform patterns are always either empty or invalid.)
+    fn components(t: &RT, depth: usize, path: &mut Vec<bool>, out: &mut Vec<Vec<bool>>) {
+        match t {
+            RT::Prod(a, b) if depth > 0 => {
+                path.push(false);
+                components(a, depth - 1, path, out);
+                path.pop();
+                path.push(true);
+                components(b, depth - 1, path, out);
+                path.pop();
+            }
+            _ => out.push(path.clone()),
+        }
+    }
+    fn fill_at(t: &RT, path: &[bool], here: &[bool], inside: bool, outside: bool) -> Rc<RV> {
+        // `here` is the path of the component to single out; `path` the path walked so far
+        match t {
+            RT::Prod(a, b) if path.len() < here.len() && here[..path.len()] == path[..] => {
+                let mut pl = path.to_vec();
+                pl.push(false);
+                let mut pr = path.to_vec();
+                pr.push(true);
+                RV::pair(&fill_at(a, &pl, here, inside, outside), &fill_at(b, &pr, here, inside, outside))
+            }
+            _ => {
+                let bit = if path == here { inside } else { outside };
+                fill(t, &mut || bit)
+            }
+        }
+    }
+    let mut comps = vec![];
+    components(t, 3, &mut vec![], &mut comps);
+    if comps.len() > 1 {
+        for c in &comps {
+            v.push(fill_at(t, &[], c, true, false));
+            v.push(fill_at(t, &[], c, false, true));
+        }
+    }
     v.sort();
     v.dedup();
     v
+}
+
+/// Types (with at most k constructors) on which the cached "has padding" flag of a node is decided by
+/// exactly one of its children: sums whose arms are equally wide, and products, one child of which
+/// has padding while the other has none. A wrong flag makes the compact decoder read such a type
+/// in the padded layout; no smaller type can show that.
+pub fn padding_flag_family(k: usize) -> Vec<Rc<RT>> {
+    types_upto(k)
+        .into_iter()
+        .filter(|t| match &**t {
+            RT::Unit => false,
+            RT::Sum(a, b) => a.width() == b.width() && a.has_padding() != b.has_padding(),
+            RT::Prod(a, b) => a.has_padding() != b.has_padding() && a.size() + b.size() <= 2,
+        })
+        .collect()
 }
